@@ -64,7 +64,9 @@ func (c *vT) checkC05(q string) {
 	if vOptComplete(c.optc) {
 		c.sameScan(c.st, st2, q, "C05")
 	}
-	// re-marshalling a loaded trie reproduces the same message (bytes: native replay only)
+	// re-marshalling a loaded trie reproduces the same bytes: under A-PB, the loaded message has the
+	// proto3 normal form of the message it was loaded from (natively: the real bytes)
+	vAssert(vSameWire(c.st.inner, st2.inner), "C05.remarshal-same-wire")
 	st3 := c.reload(st2)
 	vAssert(vDeepEqual(st2.inner, st3.inner), "C05.remarshal-same-message")
 	b1, _ := c.st.Marshal()
@@ -157,6 +159,7 @@ func H_l2_residue() {
 		_ = inst.String() // rendering must not leave anything behind either
 		inst.Marshal()    // nor serialising
 		inst.Get(qmid)    // nor querying
+		inst.Stat()       // nor reporting
 		inst.Search(qmid)
 		if op == 3 {
 			inst.Reset()
@@ -178,6 +181,11 @@ func H_l2_residue() {
 	a.sameAnswers(inst, ref, q, "C05.residue")
 	vAssert(vDeepEqual(inst.inner, ref.inner), "C05.residue.message")
 	vAssert(vDeepEqual(inst.Stat(), ref.Stat()), "C05.residue.stat")
+	if last >= 0 && last < 3 {
+		want := []int{a.n, b.n, 0}[last]
+		// keys are distinct values are symbolic: KeyCnt is at most the number of keys loaded last
+		vAssert(int(inst.Stat().KeyCnt) <= want, "C18.keycnt-after-reload")
+	}
 	vAssert(inst.String() == ref.String(), "C19.same-after-load")
 	// re-marshalling the instance reproduces what it holds now, not what it held before
 	again := a.reload(inst)
